@@ -666,7 +666,7 @@ def run_family(run, family, entries, timeout=60, workers=8, only=None, engine="C
             ob.nontrivial = False
             return
         try:
-            decide(run, ob, family, ent["op"], ent["params"], ent["ins"], ent["spec"], k=ent["k"], timeout=timeout,
+            decide(run, ob, family, ent["op"], ent["params"], ent["ins"], ent["spec"], k=ent["k"], timeout=ent.get("timeout") or timeout,
                    monomial_mode=ent.get("monomial", False), variants=ent.get("variants", ()), ff=ent.get("ff", False))
         except Exception as ex:  # noqa
             import traceback
